@@ -716,10 +716,12 @@ def _range_bad(driver, uri, rng):
         lines = driver.docs[path]["lines"]
         if lines is None:
             return None  # model masked for this document
-    elif path in driver.world.files:
-        lines = model.lines_from_disk(driver.world.files[path])
+    elif path in driver.told:
+        # closed file: the text the server was last told about (a change on disk that no
+        # notification announced cannot be blamed on the server)
+        lines = model.lines_from_disk(driver.told[path])
     else:
-        return ("location in a file that does not exist", path)
+        return ("location in a file the client never showed or has closed after deleting", path)
     s, e = rng["start"], rng["end"]
     for nm, p in (("start", s), ("end", e)):
         if not (0 <= p["line"] < len(lines)):
